@@ -438,6 +438,10 @@ struct KnownFinding {
 	signature: String,
 	what: String,
 	status: String,
+	/// for findings of exhaustively enumerated interleavings: the number of failing schedules the recorded defect explains
+	/// (per tier); more failing schedules than that are histories the finding does not cover
+	max_quick: Option<u64>,
+	max_thorough: Option<u64>,
 }
 
 fn load_known_findings() -> Vec<KnownFinding> {
@@ -460,6 +464,8 @@ fn load_known_findings() -> Vec<KnownFinding> {
 				signature: f.get("signature").and_then(|v| v.as_str()).unwrap_or("").to_string(),
 				what: f.get("what").and_then(|v| v.as_str()).unwrap_or("").to_string(),
 				status: f.get("status").and_then(|v| v.as_str()).unwrap_or("").to_string(),
+				max_quick: f.get("max_occurrences_quick").and_then(|v| v.as_i64()).map(|v| v as u64),
+				max_thorough: f.get("max_occurrences_thorough").and_then(|v| v.as_i64()).map(|v| v as u64),
 			});
 		}
 	}
@@ -619,7 +625,20 @@ pub fn parent_main(check: &dyn Check, tier: Tier) -> i32 {
 			("replay_cmd", J::s(format!("./check {} --replay {}", id, replay_path))),
 		]);
 		std::fs::write(&replay_path, replay.to_string_pretty()).ok();
-		if let Some(k) = k {
+		let cap = k.and_then(|k| if tier == Tier::Quick { k.max_quick } else { k.max_thorough });
+		if let (Some(k), Some(cap), true) = (k, cap, cap.map(|c| count > c).unwrap_or(false)) {
+			// the enumeration is exhaustive: the recorded finding accounts for `cap` failing schedules; the others are new histories
+			known_hits += 1;
+			println!(
+				"KNOWN-FINDING: property={} {} [signature: {}; {} of {} occurrence(s); replay={}]",
+				id, k.what, sig, cap, count, replay_path
+			);
+			violations += 1;
+			println!("VIOLATION property={} replay={}", id, replay_path);
+			println!("  signature: {} -- in {} enumerated histories, the recorded finding explains at most {}", sig, count, cap);
+			println!("  occurrences: {}", count - cap);
+			println!("  first: case {} :: {}", case, truncate(&detail, 600));
+		} else if let Some(k) = k {
 			known_hits += 1;
 			println!(
 				"KNOWN-FINDING: property={} {} [signature: {}; {} occurrence(s); replay={}]",
